@@ -140,8 +140,13 @@ theorem C20_run_filler (ho : RunOptsD o name pname sym) (hsym : sym ≠ []) (hsn
     defineSection_of_diff ho hsym hsnl hscr hs0 hname htarget hw hd hvalid hfileLF hpatchLF hfileD hpatchD
   obtain ⟨s', hrun, hfs, _, hdone⟩ := processSection_clean H hreal hdir
   rw [runPatch_of_section ho.file hs0 hpn hpd hpatch hd s' par2 false hrun hdone heof]
-  have hback : splitLines (render o.newlineOutput r.out) = r.out.map Out.line :=
-    RunR.splitLines_renderLines_lf _ hmode _ hgood
+  have hback : splitLines (render o.newlineOutput r.out) = r.out.map Out.line := by
+    rw [Render.render_of_all_terminated _ (fun x hx => by
+      have := hgood x.line (List.mem_map_of_mem hx)
+      unfold lfPlain at this
+      simp only [Bool.and_eq_true, beq_iff_eq] at this
+      rw [this.1]; simp)]
+    exact RunR.splitLines_renderLines_lf _ hmode _ hgood
   refine ⟨rfl, ⟨render o.newlineOutput r.out, ?_, ?_, ?_⟩, ?_⟩
   · show s'.fs.lookup name = _
     rw [hfs, Fs.lookup_set_self]
